@@ -30,8 +30,10 @@ Definition unpack (x : N) : list N := unpack_f (S (N.to_nat (N.log2 x / 20))) x.
 Definition unpacks (l : list N) : list N := flat_map unpack l.
 
 (* descriptor transition of one evaluation network under an architecture mutation: (id before, id after) of the
-   sub-configuration the method addresses, and (id before, id after) of the whole descriptor *)
-Record atrans := mkAT { at_sub : N * N; at_full : N * N }.
+   sub-configuration the method addresses, (id before, id after) of the whole descriptor, and the id of the DELTA of
+   the addressed sub-configuration (numeric differences per changed entry; 0 = not comparable: structural change of
+   differently shaped configurations, or a hook-shared encoder whose own configuration is not maintained) *)
+Record atrans := mkAT { at_sub : N * N; at_full : N * N; at_delta : N }.
 Record afollow := mkAF { af_applied : bool; af_pol : atrans; af_others : list atrans }.
 
 (* [arch_mutate] with the observed policy transition as the meaning of the resolved method: a network whose
@@ -39,6 +41,12 @@ Record afollow := mkAF { af_applied : bool; af_pol : atrans; af_others : list at
    touches no other network *)
 Definition obs_apply (pol : N * N) (m : unit) (d : unit) (a : N) : N * option unit * unit :=
   if N.eqb a (fst pol) then (snd pol, Some tt, tt) else (a, Some tt, tt).
+(* [follow_one] when the meaning of the resolved method is "add the policy's delta": every other evaluation network
+   shows the policy's delta (in particular none, when the policy's call changed nothing) *)
+Definition delta_follow_ok (f : afollow) : bool :=
+  let dp := at_delta (af_pol f) in
+  forallb (fun t => N.eqb (at_delta t) 0 || N.eqb dp 0 || N.eqb (at_delta t) dp) (af_others f).
+
 Definition arch_follow_ok (f : afollow) : bool :=
   if af_applied f then
     let '(p', others', _) := arch_mutate (obs_apply (at_sub (af_pol f))) tt tt (fst (at_sub (af_pol f)))
@@ -46,7 +54,8 @@ Definition arch_follow_ok (f : afollow) : bool :=
     N.eqb p' (snd (at_sub (af_pol f))) &&
     list_eqb (fun (pred : N) (t : atrans) =>
                 if N.eqb (fst (at_sub t)) (fst (at_sub (af_pol f))) then N.eqb pred (snd (at_sub t)) else true)
-             others' (af_others f)
+             others' (af_others f) &&
+    delta_follow_ok f
   else
     forallb (fun t => N.eqb (fst (at_full t)) (snd (at_full t))) (af_others f).
 
